@@ -2,6 +2,7 @@ import B2Z.Model.IcfDamage
 import B2Z.Props.C08
 import B2Z.Props.C11
 import B2Z.Proofs.IcfDamage
+import B2Z.Proofs.ChunkFile
 /-! # C18 — a damaged intermediate store is detected, not silently mis-read
 
 Model: `B2Z.Dmg` (`Model/IcfDamage.lean`).  PARTIAL: that decoding a truncated file fails is the
@@ -106,3 +107,68 @@ theorem C18_encode_undamaged (s : Store α) (wf : s.WF) (f : Files) (h : f.allOk
 example : chunksRead (writeStore 10 [[(1, 4), (2, 4), (3, 4), (4, 4)], [(5, 20), (6, 1)]]) 2 4 = [(0, 0), (0, 1), (1, 0)] := by decide
 
 end B2Z.Dmg
+
+/-! ## chunk files at the byte level (repair of F12)
+
+For chunk files the hypothesis `CodecRejectsPrefix` is no longer needed: `read_chunk` compares the
+size of the file with the size its Blosc header declares, so every strict prefix of a chunk file is
+refused **whatever the decompressor would have done with it** (the codec is an arbitrary function of
+the buffer and of the memory behind it).  The hypothesis remains for `chunk_index` (pickle) and
+`metadata.json` (JSON). -/
+namespace B2Z.ChunkFile
+
+/-- **C18 (chunk files)**: every strict prefix of a chunk file the writer produced is refused, for
+    every decompressor and every content of the memory behind the buffer -/
+theorem C18_chunk_prefix_rejected (c : Codec α) (mem file : List Nat) (k : Nat)
+    (hw : WellFramed file) (hk : k < file.length) : readChunk c mem (file.take k) = none := by
+  unfold readChunk
+  rw [if_pos]
+  by_cases h16 : k < 16
+  · left; simp only [List.length_take]; omega
+  · right
+    rw [declared_take file k (by omega), hw.2, List.length_take]
+    omega
+
+/-- the intact file is handed to the decompressor unchanged -/
+theorem C18_chunk_intact (c : Codec α) (mem file : List Nat) (hw : WellFramed file) :
+    readChunk c mem file = c file mem := by
+  unfold readChunk
+  rw [if_neg]
+  rintro (h | h)
+  · exact absurd hw.1 (by omega)
+  · exact h hw.2
+
+/-- whatever `read_chunk` accepts is a complete frame -/
+theorem C18_chunk_accepts_only_whole_frames (c : Codec α) (mem buff : List Nat) (v : α)
+    (h : readChunk c mem buff = some v) : WellFramed buff := by
+  unfold readChunk at h
+  split at h
+  · cases h
+  · rename_i hn
+    exact ⟨by omega, by omega⟩
+
+/-- the writer's frames are well framed, and the stored-mode decompressor returns their payload
+    (so the hypotheses above are met by real frames) -/
+theorem storedFrame_wellFramed (payload : List Nat) (h : 16 + payload.length < 256 ^ 4) :
+    WellFramed (storedFrame payload) := by
+  have hl : (storedFrame payload).length = 16 + payload.length := by
+    simp [storedFrame, leBytes_length]; omega
+  refine ⟨by omega, ?_⟩
+  rw [hl]
+  unfold declared storedFrame
+  have : ((List.replicate 12 0 ++ leBytes 4 (16 + payload.length) ++ payload).drop 12).take 4 = leBytes 4 (16 + payload.length) := by
+    rw [List.append_assoc, List.drop_append_of_le_length (by simp)]
+    simp [List.take_append_of_le_length, leBytes_length]
+  rw [this, leVal_leBytes 4 _ h]
+
+/-- **F12**: without the size check a truncated stored-mode chunk is completed from whatever lies
+    behind the buffer — here the tail of a chunk of the same size read just before — and silently
+    yields different values -/
+theorem C18_unrepaired_overread_counterexample :
+    let q := [1, 2, 9, 9]
+    let mem := [3, 4]                               -- left behind by the frame of `[1, 2, 3, 4]`
+    readChunkUnrepaired storedDecode mem ((storedFrame q).take 18) = some [1, 2, 3, 4] ∧
+    readChunk storedDecode mem ((storedFrame q).take 18) = none ∧
+    readChunk storedDecode mem (storedFrame q) = some q := by decide
+
+end B2Z.ChunkFile
